@@ -212,8 +212,8 @@ class FAMachine:
                 return
             if sym == "/" and any(x == 0 for x in b.GetValues()):
                 return
-            if sym == "/" and a.GetUnit() != b.GetUnit() and (self.um.offset.get(a.GetUnit(), 0) or self.um.offset.get(b.GetUnit(), 0)):
-                return  # b re-expressed in a's affine unit may be exactly zero
+            if sym == "/" and a.GetUnit() != b.GetUnit() and any(self.um.offset.get(u, 0) for q in (a.GetQuantity(), b.GetQuantity()) for u, _e in q.GetComposingUnitsJoiningExponents()):
+                return  # b re-expressed in a's affine unit (simple or inside a derived quantity) may be exactly zero
             r = self.attempt("FixedArray%sFixedArray" % sym, lambda: _ar(sym, a, b), same, d, [a, b])
             if r is not None:
                 self.add(r)
